@@ -51,7 +51,8 @@ pub fn bit_labels(shape: &[usize]) -> RefArray {
 
 /// Writes `scs` in both formats through writers that accept 1, 7 and 64 bytes per call and implement
 /// nothing but `write` / `flush`, through a writer that reports "full" (`Ok(0)`) part-way, and - for
-/// the reading side - parses the npy bytes back through buffered readers of small capacities.
+/// the reading side - parses the npy bytes back through buffered readers of small capacities; and
+/// through the file route onto a fresh path and onto a path that holds a longer file.
 /// Returns a description of the first discrepancy: what a library user gets must be what a `Vec`
 /// would have received, an error, or never a silent prefix.
 pub fn io_through_plain_streams(scs: &Scs, precision: usize) -> Option<String> {
@@ -81,6 +82,42 @@ pub fn io_through_plain_streams(scs: &Scs, precision: usize) -> Option<String> {
             if write::Builder::default().set_precision(precision).set_format(format).write(&mut w, scs).is_ok() {
                 return Some(format!("{fname} into a writer that is full after {at} of {} bytes: Ok(()) although only {} bytes were taken", reference.len(), w.out.len()));
             }
+        }
+        // the file route: onto a fresh path, and onto a path that already holds a longer file
+        {
+            static N: std::sync::atomic::AtomicU64 = std::sync::atomic::AtomicU64::new(0);
+            let _ = std::fs::create_dir_all(crate::cli::SCRATCH_ROOT);
+            let path = format!("{}/plain-{}-{}.{fname}", crate::cli::SCRATCH_ROOT, std::process::id(), N.fetch_add(1, std::sync::atomic::Ordering::Relaxed));
+            for (what, old) in [("a fresh path", None), ("a path holding a longer file", Some([&reference[..], &b"7 7 7 7 7 7 7 7 7 7 7 7 7 7 7 7\n"[..]].concat()))] {
+                match &old {
+                    Some(o) => {
+                        let _ = std::fs::write(&path, o);
+                    }
+                    None => {
+                        let _ = std::fs::remove_file(&path);
+                    }
+                }
+                for via_option in [false, true] {
+                    let b = write::Builder::default().set_precision(precision).set_format(format);
+                    let r = if via_option { b.write_to_path_or_stdout(Some(&path), scs) } else { b.write_to_path(&path, scs) };
+                    let got = std::fs::read(&path).unwrap_or_default();
+                    if let Some(o) = &old {
+                        let _ = std::fs::write(&path, o);
+                    }
+                    match r {
+                        Ok(()) if got == reference => {}
+                        Ok(()) => {
+                            let _ = std::fs::remove_file(&path);
+                            return Some(format!("{fname} written to {what} ({}): the file holds {} bytes, a Vec receives {}", if via_option { "write_to_path_or_stdout" } else { "write_to_path" }, got.len(), reference.len()));
+                        }
+                        Err(e) => {
+                            let _ = std::fs::remove_file(&path);
+                            return Some(format!("{fname} written to {what} failed: {e}"));
+                        }
+                    }
+                }
+            }
+            let _ = std::fs::remove_file(&path);
         }
         if fname == "npy" {
             for cap in [1usize, 3, 7, 8, 12, 20, 100, 127, 129] {
